@@ -19,11 +19,12 @@ from sexp import Sym
 from props import _token_util as U
 from props.c14 import case_tune
 from props import _c13x_names as XN
+from props import _c13x_annot as XA
 
 PROP = "C13"
 READY = True
 DRIVER = "dm_token"
-LEAN_MODULES = ["DaskModel.Props.C13", "DaskModel.Props.C13Fuse", "DaskModel.Props.C13xNames"]
+LEAN_MODULES = ["DaskModel.Props.C13", "DaskModel.Props.C13Fuse", "DaskModel.Props.C13xNames", "DaskModel.Props.C13xAnnot"]
 TABLES = ["FusedKeyRenamer"]
 CASE_TIMEOUT_S = 180
 LEVEL_TEXT = ("Lean proof: (i) keys_restored — for every list of operands with arbitrary optimizers, the keys reported after "
@@ -496,6 +497,7 @@ def _step(c, prev=0):
 
 CASES = {"together": case_together, "merge": case_merge, "tune": case_tune, "fusedkey": case_fusedkey}
 CASES.update(XN.CASES)
+CASES.update(XA.CASES)
 
 
 # ----------------------------------------------------------------------------------------------
@@ -729,6 +731,7 @@ def generate(ctx):
         progs = [a, b] + [other_prog(rng) for _ in range(rng.choice([0, 1]))]
         yield "merge", {"progs": progs}
     yield from XN.generate(ctx)      # extension sections (appended last: the streams of the sections above are unchanged)
+    yield from XA.generate(ctx)      # annotations of the combined computation (last)
 
 
 def search(ctx):
